@@ -136,6 +136,11 @@ def session_trace(run, focus, site):
 def c01(run):
     session(run, {"panic"})
     session_trace(run, "C01", "panic")
+    # learning histories: commits of arbitrary candidates (emoji, raw text, wrapped words), re-typing with suffixes, restarts
+    rounds = 40 if run.quick() else 300
+    tlc, s = run_record_validate(run, "store", "store", "Trace_Store.tla", "C01", "panic", rounds, shards=8, focus="C01")
+    run.add(tlc, s)
+    run.rule += ("  ||  impl -> spec: 8 x %d rounds of the commit-heavy learning driver (see C09) validated against Trace_Store with Focus=C01: every typing / commit call returned" % rounds)
 
 
 def c02(run):
@@ -242,7 +247,7 @@ def c09(run):
                                   invariants=["Structural", "StoreRoundTrip"]), "C09", workers=4, threads=1)
     run.add(tlc, None)
     rounds = 60 if run.quick() else 400
-    tlc, s = run_record_validate(run, "store", "store", "Trace_Store.tla", "C09", "store", rounds, shards=8)
+    tlc, s = run_record_validate(run, "store", "store", "Trace_Store.tla", "C09", "store", rounds, shards=8, focus="C09")
     run.add(tlc, s)
     run.rule = ("impl -> spec: 8 recorded sessions x %d rounds of the commit-heavy driver (real words with several candidates, optionally wrapped in "
                 "punctuation / quotes / colon / back-tick, smart quotes and English on/off, random non-preselected commits, re-typing the same text, "
